@@ -138,7 +138,14 @@ def model_batch(suite, cases, pid=None):
         return []
     pid = pid or suite.split(".")[0].upper()
     data = "\n".join(suite + " " + enc(c) for c in cases) + "\n"
-    p = subprocess.run([modeld_path(pid)], input=data.encode(), stdout=subprocess.PIPE, stderr=subprocess.PIPE, timeout=3600)
+    def _big_stack():
+        import resource
+        try:
+            resource.setrlimit(resource.RLIMIT_STACK, (resource.RLIM_INFINITY, resource.RLIM_INFINITY))
+        except Exception:
+            pass
+    p = subprocess.run([modeld_path(pid)], input=data.encode(), stdout=subprocess.PIPE, stderr=subprocess.PIPE, timeout=3600,
+                       preexec_fn=_big_stack)
     if p.returncode != 0:
         raise RuntimeError("modeld failed: %s" % p.stderr.decode()[-2000:])
     lines = p.stdout.decode().splitlines()
